@@ -239,6 +239,7 @@ func (s *ServerSession) doMsg(stream *Stream) error {
 	case base.RtmpTypeIdVideo:
 		if s.sessionStat.BaseType() != base.SessionBaseTypePubStr {
 			err = nazaerrors.Wrap(base.ErrRtmpUnexpectedMsg)
+			break // 还没有publish，avObserver为nil
 		}
 		s.avObserver.OnReadRtmpAvMsg(stream.toAvMsg())
 	default:
